@@ -96,6 +96,15 @@ def run_dec(chk, pid, wire):
     cfg = "gen/Gen_DBusMut_quick.cfg" if quick else "gen/Gen_DBusMut_thorough.cfg"
     g, n = core.tlc_generate("gen/Gen_DBusMut.tla", cfg, cases, timeout=3000)
     chk.add_tlc(g)
+    # nestings at and beyond the depth limits (reference encodings from Gen_Depths), decoded as variants
+    dcases = chk.path("depth_cases.ndjson")
+    gd, nd = core.tlc_generate("gen/Gen_Depths.tla", "gen/Gen_Depths_quick.cfg", dcases, timeout=3000)
+    chk.add_tlc(gd)
+    with open(cases, "a") as f:
+        for i, line in enumerate(open(dcases)):
+            o = json.loads(line)
+            f.write(json.dumps({"id": n + i, "T": {"k": "v"}, "bytes": o["dbus"], "pos": 0, "le": True, "nfds": 0}) + "\n")
+    n += nd
     obs = chk.path("obs_mut.ndjson")
     core.run_bin(wire, ["obs-dec", cases, obs])
     mism, lines, rs = core.tlc_validate("trace/WireCheck.tla", "trace/WireCheck.cfg", obs, shards=14, timeout=3000)
